@@ -461,6 +461,27 @@ def concretise(rnd, beh, cal, tag):
                                 "posts": [[p["b"], p["ok"]] for p in beh["posts"]], "dropped": beh["dropped"]}}}
 
 
+def staged_case(rnd, cal, tag):
+    """Two tasks share the events directory: while the reader's first pass uploads, the event logger finishes its hand-over
+    of the next file (<name>.tmp, complete, is renamed to <name>.json while the second POST of the pass is being answered,
+    or when the pass ends, whichever comes first).  Two reader passes: every
+    event is uploaded in at most one batch, and both files are gone in the end."""
+    files, sfiles, eid = [], [], 0
+    for k, nev in enumerate([rnd.choice([1, 3]), rnd.choice([2, 4])]):
+        evs, sevs = [], []
+        for _ in range(nev):
+            eid += 1
+            e, pred = make_event(rnd, eid, "plain", None, cal, tag)
+            evs.append({"id": eid, "pred": pred, "cl": "plain", "abs": None, "event": e})
+            sevs.append(e)
+        final = "%04d.json" % (k + 1)
+        files.append({"name": final, "bad": False, "events": evs})
+        sfiles.append({"name": final if k == 0 else "0002.tmp", "raw": None, "events": sevs})
+    return {"id": tag, "files": sfiles, "replies": [], "default_reply": "ok", "post_limit": 5 * (eid + 1) + 10,
+            "passes": 2, "publish_at_post": {"n": 1, "from": "0002.tmp", "to": "0002.json"},   # (or when the first pass ends)
+            "meta": {"tag": tag, "files": files, "kind": "staged", "expect": None}}
+
+
 def random_case(rnd, cal, tag, thorough):
     cap = MAXB - cal["envelope"]
     nfiles = rnd.choice([1, 1, 2, 3, 4])
@@ -738,6 +759,7 @@ def run(c):
     nrand = 300 if thorough else 36
     cases += [random_case(rnd, cal, "r%d" % i, thorough) for i in range(nrand)]
     cases += [random_case(rnd, cal, "stuck%d" % i, thorough) for i in range(len(FAIL_KINDS) * (1 if not thorough else 4))]
+    cases += [staged_case(rnd, cal, "staged%d" % i) for i in range(3 if not thorough else 12)]
     t = util.Timer()
     observed, panics = run_cases(c, cases, bindir, cal, "c18_run")
     util.log("replayed %d cases in %ss" % (len(cases), t.s()))
